@@ -41,7 +41,7 @@ def known_trigger(kf, r, fails):
     return any(first.get(f) == t and last.get(f) == t for f, t in syn.items())
 
 CHECK = ScenarioCheck("C06", ["SimVerif.Props.C06"], "kernel", gen.generate, spec_c06, nontrivial,
-    "one connection whose sockets stay open; self-perpetuating writer and reader, the main sender being the connecting or (every other scenario) the accepted socket; routes of 1-3 queue hops each way with bandwidth 0 or 5 kB/s-50 MB/s, latency 0-500 ms, capacity unlimited or from exactly one full segment up to megabytes incl. receiver-side bottlenecks; path MTU 100-3000; transfers 1 B-2 MB with write chunks 1 B-1 MB and read buffers 1 B-64 kB; reverse transfer simultaneously (unlimited queues, bulk both ways) or afterwards; accept posted before or after the SYN; a 10 % extra share with a scripted delayer behind the first queue of the main sender's outgoing route (1..13 of its first 30 droppable packets held for 100 ns..2 s and forwarded unchanged: segments overtake each other without loss); quick tier: 400 scenarios of at most 400 segments each, 80 % with finite queues, half of those sending >= 5 x the tightest forward capacity; besides the progress clauses at quiescence the monitor flags any write/read completion with an error on an established connection nobody closed (no_spurious_error) and connects/accepts that fail; non-trivial = >= 4 completions; distinct = distinct trace",
+    "one connection whose sockets stay open; self-perpetuating writer and reader, the main sender being the connecting or (every other scenario) the accepted socket; routes of 1-3 queue hops each way with bandwidth 0 or 5 kB/s-50 MB/s, latency 0-500 ms, capacity unlimited or from exactly one full segment up to megabytes incl. receiver-side bottlenecks; path MTU 100-3000; transfers 1 B-2 MB with write chunks 1 B-1 MB and read buffers 1 B-64 kB; reverse transfer simultaneously (unlimited queues, bulk both ways) or afterwards; accept posted before or after the SYN; a 10 % extra share with a scripted delayer behind the first queue of the main sender's outgoing route (1..13 of its first 30 droppable packets held for 100 ns..2 s and forwarded unchanged: segments overtake each other without loss); quick tier: 400 + 40 scenarios of at most 400 segments each, 80 % with finite queues, half of those sending >= 5 x the tightest forward capacity; besides the progress clauses at quiescence the monitor flags any write/read completion with an error on an established connection nobody closed (no_spurious_error) and connects/accepts that fail; non-trivial = >= 4 completions; distinct = distinct trace",
     TRUSTED, ASSUME, spec_scn=True, known_trigger=known_trigger)
 
 def run(tier, seed, replay):
